@@ -91,7 +91,25 @@ func c06WireTable(rep *verifkit.Report, rng *rand.Rand, idx int) {
 		return
 	}
 	defer vs.stop()
-	vs.Up.Script = c01UpstreamScript
+	// The upstream answers a quarter of the questions with an error code and
+	// no records (chosen by the name, so that the monitor knows it too).
+	upRcode := func(name string) int {
+		switch len(name) % 8 {
+		case 0:
+			return dns.RcodeNameError
+		case 1:
+			return dns.RcodeServerFailure
+		}
+
+		return dns.RcodeSuccess
+	}
+	vs.Up.Script = func(req *dns.Msg, n int) ([]dns.RR, int) {
+		if rc := upRcode(strings.ToLower(req.Question[0].Name)); rc != dns.RcodeSuccess {
+			return nil, rc
+		}
+
+		return c01UpstreamScript(req, n)
+	}
 	setts := &filtering.Settings{FilteringEnabled: true, ProtectionEnabled: true}
 	for _, name := range c06WireNames {
 		for _, qt := range []uint16{dns.TypeA, dns.TypeAAAA, dns.TypeTXT} {
@@ -153,7 +171,8 @@ func c06WireTable(rep *verifkit.Report, rng *rand.Rand, idx int) {
 			switch {
 			case !matched:
 				rep.Class("passed_through")
-				if len(calls) != 1 || !strings.EqualFold(calls[0].Name, qname) || !c01HasMarker(resp) {
+				upOK := upRcode(strings.ToLower(qname)) == dns.RcodeSuccess
+				if len(calls) != 1 || !strings.EqualFold(calls[0].Name, qname) || (upOK && !c01HasMarker(resp)) {
 					rep.Violate("wire:pass-through-not-forwarded", "a query the table does not rewrite was not forwarded as asked", w())
 				}
 			case len(res.IPList) > 0:
@@ -184,6 +203,11 @@ func c06WireTable(rep *verifkit.Report, rng *rand.Rand, idx int) {
 					rep.Violate("wire:canonical-name-not-resolved-upstream", "the upstream was not asked exactly once for the canonical name", w())
 				case len(cnames) < 1 || cnames[0] != strings.ToLower(qname)+">"+strings.ToLower(dns.Fqdn(res.CanonName)):
 					rep.Violate("wire:cname-record-missing", "the CNAME record from the queried name to the canonical name is missing or wrong", w())
+				case upRcode(strings.ToLower(dns.Fqdn(res.CanonName))) != dns.RcodeSuccess:
+					// The upstream had nothing for the canonical name: the
+					// original question and the CNAME must still be there
+					// (checked above); nothing more is asserted.
+					rep.Class("rendered_cname_then_upstream_error")
 				case !c01HasMarker(resp):
 					rep.Violate("wire:upstream-records-missing", "the records the upstream returned for the canonical name are missing", w())
 				}
